@@ -297,6 +297,37 @@ def racy_sets(prog: Program, fs0: dict[str, Any]) -> tuple[set[str], set[str]]:
                     if any(j != hs and j not in sure_done(prog, hs) for hs in halted if hs in prog.stages):
                         keep -= {t["target"]} | prog.descendants(t["target"])
         status_racy = set(prog.order) - keep
+    # whatever the reference run happened to do: every stage that *can* halt the workflow - a task that fails terminally
+    # in a stage without continue-on-failure, a failing synthetic child, a jumping stage that can hit a configured jump
+    # limit - cancels whatever is unfinished when it gets there, and which of several such stages gets there first is
+    # the schedule's choice.  Only what is certainly finished before *each* of them (upstream through all-of joins)
+    # keeps a schedule-independent status.
+    halters: list[str] = []
+    for ref in prog.order:
+        sp = prog.stages[ref]
+        cof = bool((sp.get("ctx") or {}).get("continuePipelineOnFailure"))
+        terminal_task = any(t.get("b") in ("fail_terminal", "exc") or (t.get("b") == "transient" and str(t.get("k")) in ("inf", "10", "11", "13"))
+                            for t in prog.task_specs(ref))
+        bad_child = bool((sp.get("synth") or {}).get("bad") or (sp.get("synth") or {}).get("before_fail"))
+        limited_jump = any(t.get("b") == "jumper" for t in prog.task_specs(ref)) and (prog.spec.get("wf_ctx") or {}).get("_max_jumps") is not None
+        if (terminal_task and not cof) or bad_child or limited_jump:
+            halters.append(ref)
+    if halters:
+        keep2: set[str] | None = None
+        jump_targets = {t["target"] for j in prog.order for t in prog.task_specs(j) if t.get("b") == "jumper"}
+        for hs in halters:
+            # (a stage that is the explicit target of a jump starts without its join: nothing is certainly done before it;
+            # the same holds for everything downstream of such a target)
+            bypassed = hs in jump_targets or bool(prog.ancestors(hs) & jump_targets)
+            sd = set() if bypassed else sure_done(prog, hs)
+            keep2 = sd if keep2 is None else (keep2 & sd)
+        keep2 = keep2 or set()
+        # (and nothing a jump can re-arm is certain either)
+        for j in prog.order:
+            for t in prog.task_specs(j):
+                if t.get("b") == "jumper" and t.get("target") in prog.stages:
+                    keep2 -= {t["target"]} | prog.descendants(t["target"])
+        status_racy |= set(prog.order) - keep2
     for ref in prog.order:
         if prog.stages[ref].get("choice"):
             status_racy |= {ref} | prog.descendants(ref)
